@@ -130,7 +130,7 @@ func zzRefAttr(s string) string {
 // that reads back as the whitespace-collapsed value.
 func VerifC19_Attr() {
 	n := zzBound("N", 4, 6)
-	a := zzStringIn("a", n, "\"'&<>= a;#\n")
+	a := zzStringIn("a", n, "\"'&<>= a;#\nlt3")
 	node := &html.Node{Type: html.ElementNode, Data: "p", Attr: []html.Attribute{{Key: "title", Val: a}, {Key: "id", Val: "k"}}}
 	out := NewFormatter().renderOpenTag(node)
 	zzNote("out", out)
